@@ -1,17 +1,35 @@
 (* C04 — Idle connections are reused; HTTP/2 requests to an origin share one connection.
-   Statements only; proofs in pool/ProofsLite.v, pool/ProofsLite2.v.
+   Statements only; proofs in pool/ProofsC04.v (with pool/FramesC04.v, pool/ProofsC04np.v) and, for the
+   per-primitive lemmas, pool/ProofsLite.v, pool/ProofsLite2.v.
    FULL STATEMENT: forall cfg ops, mon_C04 cfg ops (trace cfg ops) = true.
-   It is FALSE of the faithful model (c04_refuted_D6 below, known finding D6: the shared handle is out
-   of the idle list between the Issue that popped it and that request's first poll).  The statement
-   aimed at is therefore   forall cfg ops, mon_C04_but_D6 cfg ops (trace cfg ops) = true   (every clause
-   but the D6 window).
-   PROVED SO FAR (partial), for all states: a request whose Issue finds a usable idle connection, or an
-   attempt in progress for its origin, is created WITHOUT a connector (its dial is Gone from the start),
-   and the transport connect event is emitted only for a dial that is still New - so such a request
-   never dials; whatever the idle pop returns was an entry of the list, is open and is not expired.
-   MISSING: the invariant that a Gone dial stays Gone, the tracker simulation (ri_avail / h2_flying vs
-   idle list / in-flight mark), and the discard-justification clause. *)
-From HD Require Import common.Base http.Model pool.Model pool.Spec pool.ProofsLite pool.ProofsLite2.
+   It is REFUTED by the faithful model (c04_refuted_D6 below, known finding D6: the shared handle is out
+   of the idle list between the Issue that popped it and that request's first poll).  What is proved is
+   every clause outside the D6 window: mon_C04_but_D6 is the conjunction (c04_split) of four clause
+   monitors,
+     S1   a request whose Issue saw a usable idle connection does not dial          (c04_monitor_S1, proved)
+     drop a non-multiplexed connection is only discarded closed, expired or surplus (c04_monitor_drop, proved)
+     np   no origin has a waiting request and a usable parked connection            (c04_monitor_np, proved)
+     S2   no second HTTP/2 dial while an HTTP/2 attempt to the origin is in flight  (see the end of this file)
+   The proof attempts found D17 (stale owns_attempt, repaired in the crate) and two imprecisions of the
+   monitor (D6 follow-on blocker, ri_poph), see pool/ProofsC04.v and ocaml/poolrand.ml. *)
+From HD Require Import common.Base http.Model pool.Model pool.Spec pool.ProofsLite pool.ProofsLite2 pool.ProofsC04.
+
+Theorem c04_split : forall cfg ops obs,
+  mon_C04_but_D6 cfg ops obs = mon_C04_S1 cfg ops obs && mon_C04_S2 cfg ops obs && mon_C04_drop cfg ops obs && mon_C04_np cfg ops obs.
+Proof. exact mon_C04_but_D6_split. Qed.
+Print Assumptions c04_split.
+
+Theorem c04_monitor_S1 : forall cfg ops, mon_C04_S1 cfg ops (trace cfg ops) = true.
+Proof. exact mon_C04_S1_holds. Qed.
+Print Assumptions c04_monitor_S1.
+
+Theorem c04_monitor_drop : forall cfg ops, mon_C04_drop cfg ops (trace cfg ops) = true.
+Proof. exact mon_C04_drop_holds. Qed.
+Print Assumptions c04_monitor_drop.
+
+Theorem c04_monitor_np : forall cfg ops, mon_C04_np cfg ops (trace cfg ops) = true.
+Proof. exact mon_C04_np_holds. Qed.
+Print Assumptions c04_monitor_np.
 
 Theorem c04_reuse_no_connector_partial : forall cfg u p s k t s1 c s2,
   nth u (g_uris cfg) None = Some k -> g_pool cfg = true ->
